@@ -360,6 +360,17 @@ func runC10(seed int64, tier string, sc *Script) map[string]any {
 			os.RemoveAll(base)
 			continue
 		}
+		if si%3 == 2 {
+			// index.json is a symbolic link to the real file (a layout assembled from a shared
+			// or versioned index): the same guarantees hold
+			ip := filepath.Join(base, "index.json")
+			if err := os.Rename(ip, filepath.Join(base, "index.v1.json")); err == nil {
+				if err := os.Symlink("index.v1.json", ip); err != nil {
+					panic(err)
+				}
+				sc.Count("layout:index-json-is-a-symlink")
+			}
+		}
 		probe := filepath.Join(tmp, "probe")
 		copyDir(base, probe)
 		before := observeLayout(probe)
